@@ -176,6 +176,15 @@ CHECKS = {
         "non-trivial = a launch was compared",
         {"launches_checked": 1000, "args_compared": 5000, "env_entries_compared": 5000, "relative_programs": 300,
          "deep_cwd_cases": 100, "path_searches": 100}, assumptions=KERNEL_TRUST),
+    "C14": scen_check(
+        [("eng_seq", "asan"), ("eng_seq", "asan-nd")], "exploration",
+        "random sequences of 1-40 calls over {new, start (valid / invalid options / missing program), pid, wait, terminate, "
+        "kill, stop, read, write, close, poll, drain, sleep, destroy, destroy(NULL)} on 1-3 handles plus the NULL handle, with "
+        "arbitrary parameters (bad stream numbers, NULL buffers, out-of-range stop actions), against children with scripted "
+        "output/close/read/exit events; run under ASan+UBSan with library asserts on and again with NDEBUG; the oracle is a "
+        "life-cycle state machine asserting only state-determined results; non-trivial = more than 3 ops checked",
+        {"ops_checked": 50000, "state_op_pairs": 45, "einval_checks": 5000, "epipe_checks": 3000, "cached_status_checks": 500},
+        assumptions=KERNEL_TRUST),
     "C13": {"run": eng_opts.run, "level": "exploration", "module": "eng_opts"},
 }
 
@@ -263,6 +272,13 @@ MANIFEST_TEXT = {
             "name make resolution against the wrong directory visible.",
             "PATH search only where parent and child PATH agree; beyond PATH_MAX only a clean failure is required (ASan watches the buffer arithmetic)",
             "DESIGN.md 3/C03"),
+    "C14": ("seq", "runtime monitor: life-cycle reference state machine over random API sequences + ASan/UBSan/library asserts",
+            "Random call sequences including misuse (calls before start, after exit, after destroy via NULL, bad stream numbers, "
+            "NULL buffers, second start, polls over unstarted handles) are executed for real; every state-determined result is "
+            "compared with the model and any sanitizer report, assert or signal is a violation. Coverage is measured as visited "
+            "(state, operation) pairs.",
+            "data- and timing-dependent results are only required to lie in the operation's documented result set; the fork-child state is exercised by C15",
+            "DESIGN.md 3/C14"),
     "C13": ("opts", "runtime monitor: independent rule table vs reproc_start's verdict + libc trace of the redirect set-up, in-process enumeration",
             "All 8.2 million redirect assignments (thorough) are run through the real reproc_start with fork made to fail; the oracle is a "
             "transcription of the documented rules. Rejections must be EINVAL with no descriptor- or process-creating call before them, "
@@ -271,8 +287,9 @@ MANIFEST_TEXT = {
             "DESIGN.md 3/C13"),
 }
 
-ENGINE_PATHS = {"opts": "eng_opts.py", "life": "eng_life.py", "poll": "eng_poll.py", "io": "eng_io.py", "fault": "eng_fault.py", "ident": "eng_ident.py"}
+ENGINE_PATHS = {"seq": "eng_seq.py", "opts": "eng_opts.py", "life": "eng_life.py", "poll": "eng_poll.py", "io": "eng_io.py", "fault": "eng_fault.py", "ident": "eng_ident.py"}
 ENGINE_KINDS = {
+    "seq": "scenario runner on a virtual clock; random API sequences; builds asan (asserts on) and asan-nd",
     "opts": "in-process enumerator (src/opts.c) linked against the interposed library; fork fails with a reserved errno",
     "ident": "helper child reports its own fd table / argv / env / cwd over a control socket found via its executable's directory",
     "fault": "fault injector in the interposition layer; call sites discovered by tracing; scenario runner as vehicle",
